@@ -46,12 +46,26 @@ package gpu_sharing
 //@     invariant forall j int :: 0 <= j && j <= rangeindex && old(existingAt(fittingGPUsOnNode, j)) ==> nodeGpusSharing.Groups[j] == old(fittingGPUsOnNode[j])
 //@     invariant !nodeGpusSharing.IsReleasing ==> (forall j int :: 0 <= j && j <= rangeindex && old(existingAt(fittingGPUsOnNode, j)) ==> old(node_info.idleRoomOnGpu(node, pod.ResReq, fittingGPUsOnNode[j])))
 //@     invariant !nodeGpusSharing.IsReleasing && rangeindex >= 0 ==> old(bindableOnIdle(node, pod))
+//@     invariant newGpuGroups >= 0 && (!nodeGpusSharing.IsReleasing && newGpuGroups >= 1 ==> newGpuGroups <= floor(node.Idle.gpus))
+//@     invariant forall j int :: 0 <= j && j <= rangeindex && !old(existingAt(fittingGPUsOnNode, j)) ==> newGpuGroups >= 1
+//@     invariant forall i int, j int :: 0 <= i && i < j && j <= rangeindex && !old(existingAt(fittingGPUsOnNode, i)) && !old(existingAt(fittingGPUsOnNode, j)) ==> newGpuGroups >= 2
 //@     decreases len(fittingGPUsOnNode) - rangeindex
 //@   ensures [count] result != nil ==> len(result.Groups) == pod.ResReq.count && len(result.Groups) >= 1
 //@   ensures [sameGroups] result != nil ==> len(result.Groups) <= len(fittingGPUsOnNode) && (forall j int :: 0 <= j && j < len(result.Groups) && old(existingAt(fittingGPUsOnNode, j)) ==> result.Groups[j] == old(fittingGPUsOnNode[j]))
 //@   ensures [top] result != nil && !result.IsReleasing ==> (forall j int :: 0 <= j && j < len(result.Groups) && old(existingAt(fittingGPUsOnNode, j)) ==> node_info.idleRoomOnGpu(node, pod.ResReq, result.Groups[j]))
 //@   ensures [bindFitsIdle] result != nil && !result.IsReleasing ==> bindableOnIdle(node, pod)
+//@   # C02 "whole plus shared devices in use on a node never exceed the node's GPU count" / C01 "capacity held by terminating pods is
+//@   # never handed to a bind": every newly opened group of a bind-now answer is paid for by an idle whole GPU of its own
+//@   # (k = 1 and k = 2 instances over positions; the general count through the code's counter is the lemma below)
+//@   ensures [newGroupsPaidByIdleGpus] result != nil && !result.IsReleasing ==> (forall j int :: 0 <= j && j < len(result.Groups) && !old(existingAt(fittingGPUsOnNode, j)) ==> node.Idle.gpus >= 1.0) && (forall i int, j int :: 0 <= i && i < j && j < len(result.Groups) && !old(existingAt(fittingGPUsOnNode, i)) && !old(existingAt(fittingGPUsOnNode, j)) ==> node.Idle.gpus >= 2.0)
+//@   lemma [newGroupsCounterPaid] result != nil && !result.IsReleasing && newGpuGroups >= 1 ==> newGpuGroups <= floor(node.Idle.gpus)
 //@ end
+
+// Finding (fixed in /repo c0dceaf, test /verif/findings/C02/zz_fix02_newgroups_test.go): before the fix one new group was opened per
+// whole-GPU marker although node.IsTaskAllocatable counts idle whole GPUs + fitting shared groups (Idle.gpus = 1, Releasing.gpus = 1,
+// one fitting group, gpuspread order, 2-device request => 2 new groups bound, Idle.gpus = -1). [newGroupsPaidByIdleGpus] guards the fix.
+// Also not decided: new group names differ from existing ones (uuid uniqueness is not assumed); the converse direction
+// (IsReleasing == true only when needed) - IsTaskAllocatable's answer cannot be named across the loop's heap versions.
 
 // ---- C01/C02: bind now or nominate (pipeline) ----------------------------------------------------------------
 // what Statement.Allocate / Statement.Pipeline need (framework contracts): session skeleton, well-formed log, the pods
@@ -65,21 +79,29 @@ package gpu_sharing
 //@   requires ssn != nil && node != nil && task != nil && task.ResReq != nil && stmtReady(stmt, node)
 //@   modifies *
 //@   ensures [bindPath] !isPipelineOnly ==> ite(result, framework.appendedOne(stmt) && framework.isAllocateOp(framework.lastOp(stmt)), stmt.operations == old(stmt.operations))
+//@   ensures [bindOnlyIfNotPipelineOnly] isPipelineOnly ==> (forall j int :: old(len(stmt.operations)) <= j && j < len(stmt.operations) ==> !framework.isAllocateOp(stmt.operations[j]))
 //@   ensures [virtual] framework.noEmission()
 //@   ensures [lenGrows] len(stmt.operations) >= old(len(stmt.operations))
 //@   ensures [prefixKept] forall j int :: 0 <= j && j < old(len(stmt.operations)) ==> stmt.operations[j] == old(stmt.operations[j])
+//@   ensures [newEntriesOK] forall j int :: old(len(stmt.operations)) <= j && j < len(stmt.operations) ==> framework.okEntry(stmt.operations[j], j)
+//@   ensures [oneEntryOnBind] (exists j int :: old(len(stmt.operations)) <= j && j < len(stmt.operations) && framework.isAllocateOp(stmt.operations[j])) ==> result && len(stmt.operations) == old(len(stmt.operations)) + 1
+//@   ensures [revFailMono] framework.revFailMono()
 //@ end
 
 // C01/C02: the fractional pod gets the groups chosen by GetNodePreferableGpuForSharing and is bound now (allocate log entry)
 // only if the caller did not ask for pipeline-only AND the choice is not "releasing"; otherwise it is nominated (pipelined).
-// DISABLED until the framework file has a read-only contract for (*Session).FittingGPUs (without it the sortGPUs havoc
-// makes the precondition of GetNodePreferableGpuForSharing unprovable here); re-enable by turning `// @` back into `//@`.
-// func AllocateFractionalGPUTaskToNode
-// props C01 C02
-// requires ssn != nil && sharingReadable(node, pod) && stmtReady(stmt, node)
-// modifies *
-// lemma [noGpuNoChange] gpuForSharing == nil ==> !result && stmt.operations == old(stmt.operations)
-// ensures [virtual] framework.noEmission()
-// ensures [lenGrows] len(stmt.operations) >= old(len(stmt.operations))
-// ensures [prefixKept] forall j int :: 0 <= j && j < old(len(stmt.operations)) ==> stmt.operations[j] == old(stmt.operations[j])
-// end
+//@ func AllocateFractionalGPUTaskToNode
+//@   props C01 C02
+//@   requires ssn != nil && sharingReadable(node, pod) && stmtReady(stmt, node)
+//@   modifies *
+//@   lemma [noGpuNoChange] gpuForSharing == nil ==> !result && stmt.operations == old(stmt.operations)
+//@   ensures [bindOnlyIfNotPipelineOnly] isPipelineOnly ==> (forall j int :: old(len(stmt.operations)) <= j && j < len(stmt.operations) ==> !framework.isAllocateOp(stmt.operations[j]))
+//@   ensures [bindOnlyIfBindable] (exists j int :: old(len(stmt.operations)) <= j && j < len(stmt.operations) && framework.isAllocateOp(stmt.operations[j])) ==> old(bindableOnIdle(node, pod))
+//@   lemma [bindOnlyOnIdleRoom] (exists j int :: old(len(stmt.operations)) <= j && j < len(stmt.operations) && framework.isAllocateOp(stmt.operations[j])) ==> old(forall i int :: 0 <= i && i < len(gpuForSharing.Groups) && existingAt(fittingGPUs, i) ==> node_info.idleRoomOnGpu(node, pod.ResReq, gpuForSharing.Groups[i]))
+//@   ensures [virtual] framework.noEmission()
+//@   ensures [lenGrows] len(stmt.operations) >= old(len(stmt.operations))
+//@   ensures [prefixKept] forall j int :: 0 <= j && j < old(len(stmt.operations)) ==> stmt.operations[j] == old(stmt.operations[j])
+//@   ensures [newEntriesOK] forall j int :: old(len(stmt.operations)) <= j && j < len(stmt.operations) ==> framework.okEntry(stmt.operations[j], j)
+//@   ensures [oneEntryOnBind] (exists j int :: old(len(stmt.operations)) <= j && j < len(stmt.operations) && framework.isAllocateOp(stmt.operations[j])) ==> result && len(stmt.operations) == old(len(stmt.operations)) + 1
+//@   ensures [revFailMono] framework.revFailMono()
+//@ end
